@@ -1,6 +1,7 @@
 package main
 
 import (
+	"os/exec"
 	"encoding/json"
 	"fmt"
 	"os"
@@ -130,7 +131,20 @@ func runSelftest(prop, tier string) int {
 	if prop != "" {
 		ps = []string{prop}
 	} else {
-		ps = sortedKeys(props)
+		// one child process per property: thousands of type-checked variants in one address
+		// space exhaust the machine's memory
+		rc := 0
+		for _, p := range sortedKeys(props) {
+			cmd := exec.Command(os.Args[0], "-selftest", "-prop", p, "-tier", tier)
+			cmd.Stdout, cmd.Stderr = os.Stdout, os.Stderr
+			if err := cmd.Run(); err != nil {
+				rc = 1
+			}
+		}
+		if rc == 0 {
+			fmt.Println("selftest: all properties as expected")
+		}
+		return rc
 	}
 	bad := 0
 	for _, p := range ps {
